@@ -8,6 +8,8 @@ use std::cell::Cell;
 
 use crate::Context;
 
+pub mod codeblock;
+
 thread_local! {
     static IC_DISABLED: Cell<bool> = const { Cell::new(false) };
     static IC_HITS: Cell<u64> = const { Cell::new(0) };
